@@ -148,8 +148,37 @@ func main() {
 	// keep the obligations of the requested property (covers/canaries follow their function)
 	var obls []*Obligation
 	unclaimed := 0
+	// functions reached (through verified callees) from a function of a crash/wedge-freedom property
+	safetyReach := map[string]bool{}
+	if *prop == "all" {
+		var work []string
+		for _, k := range keys {
+			for sp := range safetyClosureProps {
+				if hasProp(e.cs.Funcs[k], sp) && !safetyReach[k] {
+					safetyReach[k] = true
+					work = append(work, k)
+				}
+			}
+		}
+		for len(work) > 0 {
+			k := work[len(work)-1]
+			work = work[:len(work)-1]
+			for d := range e.deps[k] {
+				if !safetyReach[d] {
+					safetyReach[d] = true
+					work = append(work, d)
+				}
+			}
+		}
+		for k := range safetyReach {
+			safetyReach[shortKey(k)] = true
+		}
+	}
 	for _, o := range e.obls {
-		if (*prop == "all" && (len(o.Props) > 0 || o.ExpectSat || o.Kind == "lemma")) || contains(o.Props, *prop) || (pulled[o.Fn] && len(o.Props) > 0) {
+		if (*prop == "all" && (len(o.Props) > 0 || o.ExpectSat || o.Kind == "lemma" || (safetyReach[o.Fn] && isSafetyKind(o.Kind)))) || contains(o.Props, *prop) || (pulled[o.Fn] && len(o.Props) > 0) ||
+			(pulled[o.Fn] && safetyClosureProps[*prop] && isSafetyKind(o.Kind)) {
+			// (a crash/wedge-freedom property covers the run-time checks and the lock typestate of every function its
+			// handlers reach, whether or not that function's contract tags them)
 			obls = append(obls, o)
 		} else if *prop == "all" {
 			unclaimed++ // safety obligations of a function whose contract tags them with no property
@@ -373,6 +402,14 @@ func main() {
 	}
 	pruneOut(filepath.Join(*verif, "out"), 12)
 	os.Exit(exit)
+}
+
+var safetyClosureProps = map[string]bool{"C14": true}
+
+func isSafetyKind(kind string) bool {
+	base := strings.SplitN(kind, ":", 2)[0]
+	base = strings.SplitN(base, "#", 2)[0]
+	return safetyKinds[base]
 }
 
 func hasProp(fc *FuncContract, p string) bool {
